@@ -45,11 +45,24 @@ func runC44(c *Ctx) {
 		return ok && types.Identical(pt.Elem(), chT.Type())
 	}
 	n1 := 0
+	// the methods of renameDetector and every function of the package they call (compactChanges and the like)
+	var rdMethods []*FuncInfo
+	for _, fi := range p.FuncsIn(objShort) {
+		if fi.Decl.Body != nil && !p.isTestFile(fi.Decl.Pos()) && recvTypeName(fi.Obj) == rdT {
+			rdMethods = append(rdMethods, fi)
+		}
+	}
+	inScope := map[*FuncInfo]bool{}
+	for _, g := range p.staticClosure(rdMethods) {
+		if g.Pkg == pk {
+			inScope[g] = true
+		}
+	}
 	for _, fi := range p.FuncsIn(objShort) {
 		if fi.Decl.Body == nil || p.isTestFile(fi.Decl.Pos()) {
 			continue
 		}
-		if recvTypeName(fi.Obj) != rdT && fi.Decl.Name.Name != "compactChanges" {
+		if !inScope[fi] {
 			continue
 		}
 		var f *Flow
